@@ -613,12 +613,23 @@ func ruleWireListing(w *World, r *RuleResult) {
 			for _, e := range p.Events {
 				if e.Kind == "enterloop" && len(e.Args) > 0 {
 					init := stripConv(e.Args[0])
-					has := init.contains(func(x *T) bool { return x.Op == "str" && strings.Contains(x.S, "ORG") && strings.Contains(x.S, "START") })
+					isOrg := func(x *T) bool {
+						return x.Op == "str" && strings.Contains(x.S, "ORG") && strings.Contains(x.S, "START")
+					}
+					has := init.contains(isOrg)
+					// the text may be accumulated in memory (a builder) instead of a loop-carried string
+					for _, hv := range e.Heap {
+						if hv.Ty != nil && typeName(hv.Ty) == "string" && hv.contains(isOrg) {
+							has = true
+						}
+					}
 					d.add(has == !legacy, "decoration/ORG", pos, "ORG START precedes the code exactly in '94 layout", "ORG START header is "+map[bool]string{true: "present", false: "absent"}[has]+" in "+map[bool]string{true: "'88", false: "'94"}[legacy]+" layout")
 				}
 			}
 			if p.End == "ret" && len(p.Ret) == 1 && p.Ret[0].Op != "str" {
-				has := p.Ret[0].contains(func(x *T) bool { return x.Op == "str" && strings.Contains(x.S, "END") && strings.Contains(x.S, "START") })
+				has := p.Ret[0].contains(func(x *T) bool {
+					return x.Op == "str" && strings.Contains(x.S, "END") && strings.Contains(x.S, "START")
+				})
 				d.add(has == legacy, "decoration/END", pos, "END START follows the code exactly in '88 layout", "END START trailer is "+map[bool]string{true: "present", false: "absent"}[has]+" in "+map[bool]string{true: "'88", false: "'94"}[legacy]+" layout")
 			}
 		}
